@@ -680,13 +680,15 @@ impl<'a, 'src> Resolver<'a, 'src> {
         for_.iter.end(),
       );
 
+      // the iterable is evaluated before the loop variables exist
+      self_.expr(&mut for_.iter);
+
       // declare the hidden local $iter variable
       self_.declare_variable(&iterator_token);
       self_.define_variable(&iterator_token);
 
       self_.declare_variable(&for_.item);
       self_.define_variable(&for_.item);
-      self_.expr(&mut for_.iter);
 
       // loop body
       for_.body.symbols = self_.scope(|self_| self_.block(&mut for_.body));
@@ -737,9 +739,7 @@ impl<'a, 'src> Resolver<'a, 'src> {
   }
 
   fn catch(&mut self, catch: &mut ast::Catch<'src>) {
-    self.declare_variable(&catch.name);
-    self.define_variable(&catch.name);
-
+    // the class is loaded before the catch variable exists
     if let Some(class) = &catch.class {
       self.resolve_variable(class)
     } else {
@@ -750,6 +750,9 @@ impl<'a, 'src> Resolver<'a, 'src> {
         catch.name.end(),
       ));
     }
+
+    self.declare_variable(&catch.name);
+    self.define_variable(&catch.name);
 
     catch.block.symbols = self.scope(|self_| self_.block(&mut catch.block));
   }
